@@ -294,9 +294,10 @@ def finish(pid, tier, seed, m, problems, wall, nshards):
         if k['key'] in seen_known:
             continue
         seen_known.add(k['key'])
-        mk = [kk for kk in m['viol_counts'] if fnmatch.fnmatchcase(kk, k['key'])]
+        mk = [kk for kk, k2 in known_hits if k2 is k]      # the keys attributed to this entry (the first entry that matches a key owns it)
         seen_n = sum(m['viol_counts'][kk] for kk in mk)
         den = sum(m['clauses'].get(c, 0) for c in {kk.split('/')[1] for kk in mk})
+        if k.get('rate_per'): den = m['reach'].get(k['rate_per'], 0)
         rate = f" rate={seen_n / den:.2g} (bound {k['max_rate']})" if ('max_rate' in k and den) else ''
         lines.append(f"KNOWN-FINDING: property={pid} {k['what']} [key={k['key']} seen={seen_n}{rate}]")
     # a recorded finding stands for a mechanism seen at a certain (low) rate: the same key at a far higher rate is a wider or different
@@ -307,7 +308,9 @@ def finish(pid, tier, seed, m, problems, wall, nshards):
         keys = [key for key, k in known_hits if k is kk]
         seen = sum(m['viol_counts'].get(key, 0) for key in keys)
         denom = sum(m['clauses'].get(c, 0) for c in {key.split('/')[1] for key in keys})
-        if seen >= 10 and denom and seen / denom > kk['max_rate']:
+        if kk.get('rate_per'):          # rate per case of an input class (reach counter), e.g. 'class:ideal-package'
+            denom = m['reach'].get(kk['rate_per'], 0)
+        if seen >= kk.get('min_seen', 10) and denom and seen / denom > kk['max_rate']:
             rkey = kk['key'] + '#rate-exceeded'
             w0 = m['violations'][keys[0]][0]
             m['violations'][rkey] = [dict(w0, key=rkey, what=f"recorded finding [{kk['key']}] observed {seen} times in {denom} evaluations of its clause(s) "
